@@ -478,9 +478,35 @@ End LD.
 
 (* ---------- a presentation carried in a JWT: JWTPresClaims.refineFromJWTClaims (presentation_jwt.go) ----------
    iss overrides holder, jti overrides id, BEFORE the "vp" claim is serialised for the embedded-proof check and the
-   validation: what is checked is what is returned.  (Credentials: refineFromJWTClaims of credential_jwt.go is
-   C16.Model.refine, imported read-only by Corr.v / Props.v.) *)
-Definition refine_vp (iss jti : string) (m : obj) : obj :=
-  let m := if nonempty iss then set_key "holder" (JStr iss) m else m in
-  if nonempty jti then set_key "id" (JStr jti) m else m.
+   validation: what is checked is what is returned. *)
+(* assignment to a Go map as seen on the sorted member list: an existing member is replaced where it stands, a new one is
+   inserted in order *)
+Fixpoint replace_key (k : string) (v : json) (m : obj) : obj :=
+  match m with
+  | [] => []
+  | (k', v') :: r => if String.eqb k k' then (k, v) :: r else (k', v') :: replace_key k v r
+  end.
+Definition put_key (k : string) (v : json) (m : obj) : obj :=
+  match lookup m k with Some _ => replace_key k v m | None => set_key k v m end.
 
+Definition refine_vp (iss jti : string) (m : obj) : obj :=
+  let m := if nonempty iss then put_key "holder" (JStr iss) m else m in
+  if nonempty jti then put_key "id" (JStr jti) m else m.
+
+
+(* a credential carried in a JWT: JWTCredClaims.refineFromJWTClaims (credential_jwt.go): iss -> issuer (its id when the
+   issuer is an object), nbf -> issuanceDate, jti -> id, iat -> issuanceDate, exp -> expirationDate; [fmt] renders Unix
+   seconds in UTC RFC3339 (time.Format).  (The same function as C16.Model.refine; restated here so that this
+   property's compiled files do not depend on another property's.) *)
+Definition refine_vc (fmt : Z -> string) (iss jti : string) (nbf iat exp : option Z) (m : obj) : obj :=
+  let m := if nonempty iss then
+             match lookup m "issuer" with
+             | Some (JObj im) => put_key "issuer" (JObj (put_key "id" (JStr iss) im)) m
+             | Some (JStr _) | None => put_key "issuer" (JStr iss) m
+             | _ => m
+             end
+           else m in
+  let m := match nbf with Some t => put_key "issuanceDate" (JStr (fmt t)) m | None => m end in
+  let m := if nonempty jti then put_key "id" (JStr jti) m else m in
+  let m := match iat with Some t => put_key "issuanceDate" (JStr (fmt t)) m | None => m end in
+  match exp with Some t => put_key "expirationDate" (JStr (fmt t)) m | None => m end.
